@@ -41,6 +41,27 @@ def _gather_source(defs, name, fnode):
     return None
 
 
+def _through_helper(P, f, defs, name, fnode):
+    """name = helper(<grid>.<table>, <idx>) where the helper gathers rows of its first parameter with its second and filters the fill value:
+    returns (table, idx, stmt, filtered) or None"""
+    from ..loader import FuncInfo
+    for st in S.assigns(fnode, name):
+        v = st.value
+        if isinstance(v, ast.Call) and len(v.args) >= 2:
+            target = P.resolve_expr(f.module, v.func, f)
+            if not isinstance(target, FuncInfo):
+                continue
+            ps = target.params()
+            a0 = S.strip_copy(v.args[0])
+            if not (isinstance(a0, ast.Attribute) and a0.attr.endswith("_connectivity") and isinstance(v.args[1], ast.Name)):
+                continue
+            gath = any(isinstance(n, ast.Subscript) and isinstance(S.strip_copy(n.value), ast.Name) and S.strip_copy(n.value).id == ps[0] and isinstance(n.slice, ast.Name) and n.slice.id == ps[1] for n in ast.walk(target.node))
+            filt = any(isinstance(n, ast.Subscript) and S.fill_test(n.slice) and S.fill_test(n.slice)[0] == "ne" for n in ast.walk(target.node))
+            if gath:
+                return a0.attr, v.args[1].id, st, filt
+    return None
+
+
 def check(run):
     P = run.program
     run.explanation = (
@@ -85,9 +106,15 @@ def _slice_faces(run, P):
         c = f"{f.key}:members[{dim}]"
         src = _gather_source(defs, name, fn)
         filt = _has_fill_filter(defs, name, fn)
+        if src is None:
+            th = _through_helper(P, f, defs, name, fn)
+            if th is not None:
+                src = th[:3]
+                filt = filt or (th[2] if th[3] else None)
         probs = []
         if src is None:
-            probs.append(f"{name} is not gathered from a connectivity table")
+            run.incomplete("IDX/subgrid", c, where(f, call), f"how {name} is obtained is not understood (no gather from a connectivity table recognised)")
+            continue
         else:
             t, idx, st = src
             # idx must be (an alias of) the face index array
@@ -149,8 +176,12 @@ def _slice_faces(run, P):
         run.violation("IDX/subgrid", c, where(f), "the sliced dataset is not turned into a new Grid through Grid.from_dataset")
 
 
+_CONST_RESOLVER = [None]
+
+
 def _eval_name_pred(test, var, name):
-    """evaluate a predicate over the loop variable `var` bound to the string `name` (In/Eq/or/and/not on constants)"""
+    """evaluate a predicate over the loop variable `var` bound to the string `name` (In/Eq/or/and/not on constants; module-level
+    tuples/lists of strings are resolved through the loader)"""
     if isinstance(test, ast.BoolOp):
         vals = [_eval_name_pred(v, var, name) for v in test.values]
         if any(v is None for v in vals):
@@ -169,6 +200,12 @@ def _eval_name_pred(test, var, name):
                 return n.value
             if isinstance(n, (ast.Tuple, ast.List)) and all(isinstance(e, ast.Constant) for e in n.elts):
                 return [e.value for e in n.elts]
+            if isinstance(n, (ast.Name, ast.Attribute)) and _CONST_RESOLVER[0] is not None:
+                v = _CONST_RESOLVER[0](n)
+                if isinstance(v, (tuple, list, set, frozenset)) and all(isinstance(x, str) for x in v):
+                    return list(v)
+                if isinstance(v, str):
+                    return v
             return None
         x, y = val(a), val(b)
         if x is None or y is None:
@@ -200,6 +237,12 @@ def _remap(run, P, f, defs, isel):
         run.incomplete("F-TABLE/subgrid-remap", c0, where(f), "loop over the grid's variables not found")
         return
     var = loop.target.id
+    from ..loader import ConstInfo
+
+    def _resolve(n):
+        r = P.resolve_expr(f.module, n, f)
+        return P.const_value(r) if isinstance(r, ConstInfo) else None
+    _CONST_RESOLVER[0] = _resolve
     # iteration domain: a loop over .data_vars never sees variables that are stored as (index) coordinates.  A bare 1-D array
     # assigned as  _ds["name"] = <ndarray>  becomes a dimension coordinate named after itself (xarray semantics).
     if "data_vars" in norm(loop.iter):
@@ -253,12 +296,18 @@ def _remap(run, P, f, defs, isel):
     for nm in ADJACENCY:
         c = f"{f.key}:route[{nm}]"
         routed = None
+        undecided = False
         for test, kind, node in branches:
             r = True if test is None else _eval_name_pred(test, var, nm)
+            if r is None:
+                undecided = True
+                break
             if r:
                 routed = (kind, node)
                 break
-        if routed is not None and routed[0] == "drop":
+        if undecided:
+            run.incomplete("F-TABLE/subgrid-remap", c, where(f, loop), f"routing predicate for {nm} not evaluable")
+        elif routed is not None and routed[0] == "drop":
             run.holds("F-TABLE/subgrid-remap", c, where(f, routed[1]), f"{nm} (depends on both faces of an edge) is dropped and recomputed for the subset")
         else:
             run.violation("F-TABLE/subgrid-remap", c, where(f, loop), f"{nm} is carried over to the subset: an edge that lost one of its faces keeps the distance between the source grid's two faces instead of 0")
@@ -336,8 +385,16 @@ def _slice_via(run, P, fname, table):
         return
     src = _gather_source(defs, arg.id, fn)
     filt = _has_fill_filter(defs, arg.id, fn)
+    if src is None:
+        th = _through_helper(P, f, defs, arg.id, fn)
+        if th is not None:
+            src = th[:3]
+            filt = filt or (th[2] if th[3] else None)
+    if src is None:
+        run.incomplete("IDX/subgrid", c, where(f, rets[0]), f"how {arg.id} is obtained is not understood")
+        return
     probs = []
-    if src is None or src[0] != table:
+    if src[0] != table:
         probs.append(f"faces are not gathered from {table}")
     elif src[1] != f.params()[1]:
         probs.append(f"{table} gathered with {src[1]}, not with the requested indices")
